@@ -296,4 +296,4 @@ static bool replay(const std::string &text) {
     if (buf.size() == 9 && memcmp(buf.data(), "123456789", 9) == 0 && st == 0 && ufw_buffer_crc16_arc(buf.data(), 9) != 0xBB3D) ok = false;
     return ok;
 }
-int main(int argc, char **argv) { return vp::main_(argc, argv, {run, replay}); }
+VP_MAIN(run, replay)
